@@ -266,9 +266,13 @@ fn tuple_expr(p: &mut Parser<'_>) -> CompletedMarker {
     let mut saw_comma = false;
     let mut saw_expr = false;
 
+    // An error has been reported for what is between the parentheses.
+    let mut reported = false;
+
     if p.eat(T![,]) {
         p.error("expected expression, found comma instead");
         saw_comma = true;
+        reported = true;
     }
 
     while !p.at(EOF) && !p.at(T![')']) {
@@ -280,18 +284,16 @@ fn tuple_expr(p: &mut Parser<'_>) -> CompletedMarker {
 
         if !p.at(T![')']) {
             saw_comma = true;
-            p.expect(T![,]);
+            reported |= !p.expect(T![,]);
         }
     }
     p.expect(T![')']);
-    m.complete(
-        p,
-        if saw_expr && !saw_comma {
-            PAREN_EXPR
-        } else {
-            TUPLE_EXPR
-        },
-    )
+    let is_paren_expr = saw_expr && !saw_comma;
+    if saw_expr && saw_comma && !reported {
+        // `(a,)` and `(a, b)` are not expressions in OQ3.
+        p.error("expected a single expression in parentheses");
+    }
+    m.complete(p, if is_paren_expr { PAREN_EXPR } else { TUPLE_EXPR })
 }
 
 fn array_expr(p: &mut Parser<'_>) -> CompletedMarker {
